@@ -329,6 +329,34 @@ func runC16(c *Ctx) {
 			c.obI("R16.4", ci, "in-memory-source-written-only-when-parsed", !inMem, "a source held in memory ([]byte, string, a marshaler's output) is parsed completely before anything is written (bufferedCSV): a malformed input leaves the output untouched", "an in-memory source is streamed record by record (pipeCSV): records before the bad one have reached the writer when the parser's error is returned")
 		}
 	}
+	// the reflective branch of the producer judges the VALUE a pointer source points at: kinds and types are asked of
+	// reflect.Indirect(reflect.ValueOf(data)) — asked of the pointer itself, *[][]string, *[]byte and *string (documented
+	// sources) are "not supported"
+	{
+		n := 0
+		for _, ci := range allCalls(fp) {
+			name := calleeName(ci.Common())
+			if name != "(reflect.Value).Type" && name != "(reflect.Value).Kind" {
+				continue
+			}
+			recv, _ := callArgs(ci.Common())
+			if fromData, _ := allOrigins(recv, oCall(-1, "reflect.Indirect"), oCall(-1, "reflect.ValueOf"), oCall(-1, "(reflect.Value).Elem")); !fromData {
+				continue
+			}
+			n++
+			direct, _ := allOrigins(recv, oCall(-1, "reflect.ValueOf"))
+			if direct {
+				// reflect.ValueOf(data).Kind() == reflect.Ptr is a test ABOUT the pointer: fine as a condition, not as the kind dispatched on
+				if name == "(reflect.Value).Kind" {
+					continue
+				}
+				c.obI("R16.4", ci, "source-judged-after-indirection", false, "the producer dispatches on the type of the dereferenced source value", "the type is taken of reflect.ValueOf(data) itself: pointer sources are refused")
+				continue
+			}
+			c.obI("R16.4", ci, "source-judged-after-indirection", true, "the producer dispatches on the type of the dereferenced source value", "")
+		}
+		c.obRF("R16.4", fp, "reflective-dispatch", n >= 1, "the producer has a reflective branch", "")
+	}
 	// R16.2 slice typestate and overwrite
 	for _, sc := range callsIn(fc, "(reflect.Value).SetCap") {
 		recv, _ := callArgs(sc.Common())
